@@ -1226,6 +1226,120 @@ func runStress(seed uint64, sh Shape, res *vh.Result) int {
 	return 4*G*N + 2*G*N
 }
 
+// runCreateOnce: N callers of GetOrCreate are released together on an EMPTY Locked value / an absent map key, many
+// rounds.  To make them really arrive together the write lock is first held by a helper (a Set callback that blocks
+// and then answers "ignore", so the value stays empty); the callers queue up behind it and are woken at once.
+// Oracle (what every sequential order gives): exactly one caller reports created=true, and every caller was shown
+// the value that is stored afterwards.
+func runCreateOnce(seed uint64, sh Shape, rounds int, res *vh.Result) int {
+	rp := FreeReplay{Free: "createonce", Shape: sh, Seed: seed}
+	r := vh.NewRand(seed)
+	ops := 0
+	type target struct {
+		name  string
+		hold  func(held chan<- struct{}, release <-chan struct{}) // blocks inside the write critical section
+		goc   func(v int) (seen int, created bool, err error)
+		final func() (int, bool)
+		reset func()
+	}
+	l := util.EmptyLocked[int]()
+	m := sh.build()
+	var key uint64
+	targets := []target{
+		{
+			name: "Locked",
+			hold: func(held chan<- struct{}, release <-chan struct{}) {
+				_, _ = l.Set(func(int, bool) (int, error) {
+					close(held)
+					<-release
+					return 0, util.ErrLockedSetIgnore.WithStack()
+				})
+			},
+			goc: func(v int) (seen int, created bool, err error) {
+				err = l.GetOrCreate(func(x int, c bool) error { seen, created = x, c; return nil }, func() (int, error) { return v, nil })
+				return
+			},
+			final: func() (int, bool) { v, e := l.Value(); return v, !e },
+			reset: func() { l.EmptyValue() },
+		},
+		{
+			name: "map " + sh.Name,
+			hold: func(held chan<- struct{}, release <-chan struct{}) {
+				_, _, _ = m.Set(key, func(int, bool) (int, error) {
+					close(held)
+					<-release
+					return 0, util.ErrLockedSetIgnore.WithStack()
+				})
+			},
+			goc: func(v int) (seen int, created bool, err error) {
+				err = m.GetOrCreate(key, func(x int, c bool) error { seen, created = x, c; return nil }, func() (int, error) { return v, nil })
+				return
+			},
+			final: func() (int, bool) { return m.Value(key) },
+			reset: func() { m.RemoveValue(key) },
+		},
+	}
+	for round := 0; round < rounds; round++ {
+		key = uint64(r.Intn(50))
+		n := r.Range(8, 24)
+		for _, tg := range targets {
+			held, release := make(chan struct{}), make(chan struct{})
+			var hw sync.WaitGroup
+			hw.Add(1)
+			go func() { defer hw.Done(); tg.hold(held, release) }()
+			<-held
+			seen := make([]int, n)
+			created := make([]bool, n)
+			errs := make([]error, n)
+			var arrived, wg sync.WaitGroup
+			for i := 0; i < n; i++ {
+				arrived.Add(1)
+				wg.Add(1)
+				go func(i int) {
+					defer wg.Done()
+					arrived.Done()
+					seen[i], created[i], errs[i] = tg.goc(100 + i)
+				}(i)
+			}
+			arrived.Wait()
+			// let the callers reach the lock (they cannot pass it: the helper holds it)
+			for k := 0; k < 20; k++ {
+				runtime.Gosched()
+			}
+			time.Sleep(time.Duration(r.Range(50, 400)) * time.Microsecond)
+			close(release)
+			hw.Wait()
+			wg.Wait()
+			ops += n
+			fv, ok := tg.final()
+			nc := 0
+			for i := 0; i < n; i++ {
+				if created[i] {
+					nc++
+				}
+			}
+			switch {
+			case !ok:
+				res.Fail("getorcreate-not-once", fmt.Sprintf("create-once on %s: %d callers of GetOrCreate on an empty value, nothing stored afterwards", tg.name, n), rp)
+			case nc != 1:
+				res.Fail("getorcreate-not-once", fmt.Sprintf("create-once on %s: %d callers of GetOrCreate released together on an empty value, %d of them report created=true (stored %d, shown %v)", tg.name, n, nc, fv, seen), rp)
+			default:
+				for i := 0; i < n; i++ {
+					if errs[i] != nil || seen[i] != fv {
+						res.Fail("getorcreate-stale-value", fmt.Sprintf("create-once on %s: caller %d was shown %d (err %v), stored value is %d", tg.name, i, seen[i], errs[i], fv), rp)
+						break
+					}
+				}
+			}
+			tg.reset()
+		}
+	}
+	if m.Len() != len(m.Map()) {
+		res.Fail("len-not-keys", fmt.Sprintf("create-once on %s: Len() = %d, keys = %d", sh.Name, m.Len(), len(m.Map())), rp)
+	}
+	return ops
+}
+
 // ------------------------------------------------------------------ main
 
 func freeMain(o *vh.Opts, out string) {
@@ -1258,6 +1372,11 @@ func freeMain(o *vh.Opts, out string) {
 		res.Count(fmt.Sprintf("stress-%d", i), true)
 		res.Distribution["stress-ops"] += n
 	}
+	for i := 0; i < o.Pick(32, 400); i++ {
+		n := runCreateOnce(r.U64(), shapes[i%len(shapes)], 12, res)
+		res.Count(fmt.Sprintf("createonce-%d", i), true)
+		res.Distribution["createonce-callers"] += n
+	}
 	b, _ := json.Marshal(res)
 	if err := os.WriteFile(out, b, 0o644); err != nil {
 		panic(err)
@@ -1286,6 +1405,10 @@ func main() {
 				r2 := vh.NewResult("")
 				runFreeMap(rp.Seed, rp.Shape, rp.Reset, r2)
 				fmt.Printf("replay free map: failures=%v\n", r2.Failures)
+			case rp.Free == "createonce":
+				r2 := vh.NewResult("")
+				runCreateOnce(rp.Seed, rp.Shape, 12, r2)
+				fmt.Printf("replay createonce: failures=%v\n", r2.Failures)
 			case rp.Free == "stress":
 				r2 := vh.NewResult("")
 				runStress(rp.Seed, rp.Shape, r2)
@@ -1375,11 +1498,17 @@ func main() {
 	}
 	res.Evaluations += child.Evaluations
 	res.DistinctNontrivial += child.DistinctNontrivial
-	for k, v := range child.Distribution {
-		res.Distribution[k] += v
-	}
-	for _, f := range child.Failures {
+	for _, f := range child.Failures { // before the distribution: vh.Fail keeps at most 25 per class, counted there
 		res.Fail(f.Class, f.Desc, f.Replay)
+	}
+	for k, v := range child.Distribution {
+		if strings.HasPrefix(k, "oracle_fail:") {
+			if v > res.Distribution[k] {
+				res.Distribution[k] = v
+			}
+			continue
+		}
+		res.Distribution[k] += v
 	}
 	if err := cases.Write(o.Out); err != nil {
 		panic(err)
